@@ -12,13 +12,19 @@ let rec int_of_pos = function
   | XI p -> 2 * int_of_pos p + 1
 let int_of_z = function Z0 -> 0 | Zpos p -> int_of_pos p | Zneg p -> - (int_of_pos p)
 let int_of_n = function N0 -> 0 | Npos p -> int_of_pos p
+let rec int_of_nat = function O -> 0 | S n -> 1 + int_of_nat n
+let rec nat_of_int n = if n <= 0 then O else S (nat_of_int (n - 1))
 let rec pos_of_int n =
   if n <= 1 then XH else if n land 1 = 0 then XO (pos_of_int (n lsr 1)) else XI (pos_of_int (n lsr 1))
 let z_of_int n = if n = 0 then Z0 else if n > 0 then Zpos (pos_of_int n) else Zneg (pos_of_int (- n))
 let n_of_int n = if n = 0 then N0 else Npos (pos_of_int n)
 
-(* float of a (possibly huge) Z, exactly as Python's float(int) for |z| < 2^62 *)
-let float_of_z z = float_of_int (int_of_z z)
+(* float of a Z: exact below 2^53 and for powers of two, which is all the model needs *)
+let rec float_of_pos = function
+  | XH -> 1.0
+  | XO p -> 2.0 *. float_of_pos p
+  | XI p -> 2.0 *. float_of_pos p +. 1.0
+let float_of_z = function Z0 -> 0.0 | Zpos p -> float_of_pos p | Zneg p -> -. float_of_pos p
 
 let margin = ref infinity
 let reset_margin () = margin := infinity
